@@ -301,7 +301,17 @@ func (d *Device) Get(ctx context.Context, r *gnmi.GetRequest) (resp *gnmi.GetRes
 
 // Capabilities implements gNMI Capabilities.
 func (d *Device) Capabilities(ctx context.Context, r *gnmi.CapabilityRequest) (*gnmi.CapabilityResponse, error) {
-	return &gnmi.CapabilityResponse{GNMIVersion: "0.7.0"}, nil
+	d.mu.Lock()
+	unreachable := d.Shared && !d.reachable
+	d.mu.Unlock()
+	if unreachable {
+		return nil, status.Error(codes.Unavailable, "device unreachable")
+	}
+	d.k.Probe("dev-capabilities-asked")
+	// the models of the synthetic plugin (plugin.go ModelInfo) and one the plugin does not know
+	return &gnmi.CapabilityResponse{GNMIVersion: "0.7.0", SupportedModels: []*gnmi.ModelData{
+		{Name: "other-model", Organization: "verif", Version: "2020-02-02"},
+		{Name: "synthetic", Organization: "verif", Version: "2026-01-01"}}}, nil
 }
 
 // ---- Subscribe (used by subsim) ----
